@@ -63,6 +63,12 @@ impl Reader {
     pub fn with(data: Vec<u8>, chunks: Vec<usize>, interrupt_every: u64, faults: Vec<Fault>) -> Reader {
         Reader { st: Rc::new(RefCell::new(State { data, chunks, interrupt_every, faults, logging: true, ..Default::default() })) }
     }
+    /// Hand the reader over with its cursor somewhere else than the start (a caller that sniffed the magic
+    /// first, or reuses a handle): legal for a Read+Seek.
+    pub fn at_position(self, pos: u64) -> Reader {
+        self.st.borrow_mut().pos = pos;
+        self
+    }
     pub fn calls(&self) -> u64 {
         self.st.borrow().calls
     }
